@@ -12,6 +12,11 @@ COQ_TARGETS = ["Cycle/StampK.vo", "Cycle/Model.vo", "Cycle/Spec.vo", "Cycle/Cert
 
 # what the known classes are (the authoritative list is /verif/known-findings.txt)
 KNOWN_TEXT = {
+    "forced_cycle_value_change_not_propagated":
+        "non-monotone bodies only: the final value of a fixpoint member was forced by the joining cycle_fn (it is not "
+        "what its body returns for its dependencies' final values); when a write removes the cycle the member "
+        "re-executes with a different value but its changed_at (maximum over its unchanged dependencies) does not "
+        "advance, so dependents are validated with the stale value",
     "fallback_participant_reexecuted_after_revision":
         "a cycle_result participant whose memo stayed provisional (never read again before the next revision or "
         "cancellation epoch) is re-executed while the former head validates, sees no cycle and stores its body's "
